@@ -301,9 +301,11 @@ def check_program(prog, mode, agg, growth_max_size, payloads, sample=False):
             for pi, (pl_name, pl) in enumerate(PAYLOADS[:payloads]):
                 if natural_error and pi > 0:
                     break
-                if pi > 0 and target not in (1, K):
-                    # non-default payloads only at the first and last callback (the payload only
-                    # matters to the error-annotation code, which is the same at every site)
+                if pi > 0 and target not in (1, K) and size_ > 3 and (target % len(PAYLOADS[:payloads])) != pi:
+                    # the payload only matters to the error-annotation code: every payload is used at the first and
+                    # the last callback and at every callback of the programs with <= 3 nodes; on larger programs the
+                    # middle callbacks get the default payload plus one further payload in rotation (deterministic,
+                    # every (fault site kind, payload) pair still occurs on every program shape)
                     continue
                 boot.clear_render_registries()
                 st, val, refs, ctxp = r.render(target if not natural_error else -1, pl)
